@@ -513,6 +513,14 @@ func c09Consequences(p *Plan, res *Result, m *c09Model) *common.Fail {
 	if m.termAt >= 0 {
 		// Inbound closes at the instant of termination; Sends pending then or started later fail
 		for i, e := range evs {
+			// an application that was away from Inbound when the tunnel terminated sees the closure when it comes back
+			// (behind whatever was parked for it): not earlier than the termination; that it does see it is required below
+			if e.K == "inb-closed" && len(p.Consumer) > 0 && int64(p.Consumer[0].AfterUs)*1000 > m.termAt && !strings.HasPrefix(m.termWhy, "Close") {
+				if e.T < m.termAt {
+					return failTrace(evs, i, "inbound-close-time", "Inbound() seen closed at %s by an application that came back at %s; the tunnel terminated at %s (%s)", ms(e.T), ms(int64(p.Consumer[0].AfterUs)*1000), ms(m.termAt), m.termWhy)
+				}
+				continue
+			}
 			if e.K == "inb-closed" && !strings.HasPrefix(m.termWhy, "Close") && e.T != m.termAt {
 				return failTrace(evs, i, "inbound-close-time", "Inbound() closed at %s; the tunnel terminated at %s (%s)", ms(e.T), ms(m.termAt), m.termWhy)
 			}
@@ -752,6 +760,13 @@ func genPlanC09(rt *rapid.T) *Plan {
 	}
 	p.Consumer = []ConStep{{AfterUs: 50, Kind: "drain"}}
 	p.TailUs = rapid.IntRange(0, 2*hms).Draw(rt, "tail") * 1000
+	if !c.TCP && rapid.IntRange(0, 2).Draw(rt, "application-away") == 0 {
+		// the application stays away from Inbound for the whole run while 2..5 telegrams are accepted early on: the
+		// heartbeat, the reaction to disconnect requests and responses and the reconnect go on as if it were reading
+		p.Gw = append([]GwStep{{AfterUs: rapid.IntRange(3, 20).Draw(rt, "early-reqs-at")*1000 + 77, Kind: "req", Chan: "cur", Seq: "exp", Tag: 7000,
+			Repeat: rapid.IntRange(1, 4).Draw(rt, "early-reqs")}}, p.Gw...)
+		p.Consumer = []ConStep{{AfterUs: (horizon+2*hms+50)*1000 + p.TailUs, Kind: "drain"}}
+	}
 	if rapid.IntRange(0, 3).Draw(rt, "discres-write-fails") == 0 {
 		// the socket refuses some disconnect responses (a connected UDP socket does after an ICMP error): the
 		// disconnect request ends the connection all the same
